@@ -180,7 +180,14 @@ func init() {
 	reg(rtPkg+"Choose", func(fr *frame, a []Value) Value {
 		n := int(fr.concInt(a[1], "Choose n"))
 		c := fr.w.path.choose(n)
-		fr.w.path.Observed = append(fr.w.path.Observed, fmt.Sprintf("%s=%d", concStr(fr, a[0], "name"), c))
+		p := fr.w.path
+		key := "choose:" + concStr(fr, a[0], "name")
+		k := p.nameCtr[key]
+		p.nameCtr[key] = k + 1
+		if k > 0 {
+			key = fmt.Sprintf("%s#%d", key, k)
+		}
+		p.extra[key] = uint64(c)
 		return intC(int64(c))
 	})
 	reg(rtPkg+"Concretize", func(fr *frame, a []Value) Value {
